@@ -90,6 +90,8 @@ pub struct Seen {
     pub releases_while_paused: u64,
     pub prior_fault_preludes: u64,
     pub avail_bit_checks: u64,
+    pub wide_scenarios: u64,
+    pub wide_releases_checked: u64,
 }
 
 pub enum Outcome {
@@ -706,4 +708,177 @@ fn count_served(w: &mut World, from: usize) -> usize {
         }
     }
     n
+}
+
+// ------------------------------------------------------------------ wide servers (availability words beyond the first)
+
+/// A server with more workers than one availability word holds (128 per word): every worker index lives in a
+/// bitset word chosen by `idx / 128`. Limit 2. Phases: W sequential clients (no worker saturated: W distinct
+/// workers), W more (everyone saturated), a few queued, then one release at a time on chosen indices around the word
+/// boundaries: the queued client must go to exactly the worker that released.
+pub fn run_wide(workers: usize, seed: u64, rt: RtKind, seen: &mut Seen) -> Outcome {
+    let mut rng = Rng::new(seed ^ 0x71DE);
+    let baseline_threads = engine::thread_count();
+    verif::clear_injected_accept_errors();
+    verif::set_abort_spin(false);
+    verif::set_failpoints(&[], 0);
+    verif::start_recording();
+    let limit = 2usize;
+    let cfg = ServerCfg { workers, limit, listeners: vec![LKind::Tcp], rt, shutdown_timeout: 1, backlog: 1024 };
+    let run = match engine::start(&cfg, |_| {}) {
+        Ok(r) => r,
+        Err(e) => return Outcome::Inconclusive(e),
+    };
+    let mut w = World { run, clients: Vec::new(), limit, workers };
+    let mut fails: Vec<Fail> = Vec::new();
+    let result = (|| -> Result<(), Outcome> {
+        // ---- first round: W sequential clients
+        let mut worker_of: Vec<Option<usize>> = Vec::new();
+        for _ in 0..workers {
+            let idx = connect(&mut w, 0, true)?;
+            if !w.clients[idx].served {
+                fails.push(fail(
+                    "C04:free-worker-not-used:wide",
+                    format!("{workers} workers, limit {limit}: client #{idx} of the first round was not served although {} workers had received nothing yet", workers - idx),
+                ));
+                return Ok(());
+            }
+            worker_of.push(None);
+        }
+        let seq = monitor::dispatch_sequence(&verif::log_since(0));
+        let wnd: Vec<usize> = seq.iter().take(workers).map(|x| x.2).collect();
+        let mut d = wnd.clone();
+        d.sort();
+        d.dedup();
+        seen.rr_windows_checked += 1;
+        if wnd.len() != workers || d.len() != workers {
+            let mut count: BTreeMap<usize, usize> = BTreeMap::new();
+            for x in &wnd {
+                *count.entry(*x).or_insert(0) += 1;
+            }
+            let twice: Vec<usize> = count.iter().filter(|(_, n)| **n > 1).map(|(k, _)| *k).collect();
+            let never: Vec<usize> = (0..workers).filter(|k| !count.contains_key(k)).collect();
+            fails.push(fail(
+                "C04:window-not-distinct:wide",
+                format!("{workers} workers, limit {limit}: the first {workers} dispatches (no worker saturated) hit {} distinct workers; hit twice: {twice:?}; never hit: {never:?}", d.len()),
+            ));
+            return Ok(());
+        }
+        // ---- saturate
+        for _ in 0..workers {
+            let idx = connect(&mut w, 0, true)?;
+            if !w.clients[idx].served {
+                fails.push(fail(
+                    "C04:free-worker-not-used:wide",
+                    format!("{workers} workers, limit {limit}: client #{idx} of the second round was not served although workers still had a free slot"),
+                ));
+                return Ok(());
+            }
+        }
+        let _ = barrier(&w)?;
+        let (c, _) = monitor::shadow(&verif::log_since(0), limit, false);
+        let not_full: Vec<usize> = (0..workers).filter(|i| *c.in_flight.get(i).unwrap_or(&0) != limit as i64).collect();
+        if !not_full.is_empty() {
+            fails.push(fail(
+                "C04:uneven-distribution-at-saturation:wide",
+                format!("{} held connections on {workers} workers with limit {limit}: workers {not_full:?} do not hold exactly {limit}", 2 * workers),
+            ));
+            return Ok(());
+        }
+        seen.saturations += 1;
+        // map client -> worker
+        let log = verif::log_since(0);
+        let mut cid_worker: BTreeMap<u64, usize> = BTreeMap::new();
+        {
+            let mut fd_worker: BTreeMap<i32, usize> = BTreeMap::new();
+            let mut inst_thread_fd: BTreeMap<(u64, u64), i32> = BTreeMap::new();
+            for r in &log {
+                match &r.ev {
+                    Ev::Dispatch { fd, worker, .. } => {
+                        fd_worker.insert(*fd, *worker);
+                    }
+                    Ev::User { kind: "call", a, c, .. } => {
+                        inst_thread_fd.insert((r.thread, *a), *c as i32);
+                    }
+                    Ev::User { kind: "identified", a, b, .. } => {
+                        if let Some(fd) = inst_thread_fd.get(&(r.thread, *b)) {
+                            if let Some(wk) = fd_worker.get(fd) {
+                                cid_worker.insert(*a, *wk);
+                            }
+                        }
+                    }
+                    _ => {}
+                }
+            }
+        }
+        // ---- queue extra clients
+        let queued = 3usize;
+        let first_extra = w.clients.len();
+        for _ in 0..queued {
+            connect(&mut w, 0, false)?;
+        }
+        wait_queue(&w.run.addrs[0].clone(), queued as u64);
+        let before = monitor::dispatch_sequence(&verif::log_since(0)).len();
+        let _ = barrier(&w)?;
+        let after = monitor::dispatch_sequence(&verif::log_since(0)).len();
+        if after != before {
+            fails.push(fail("C04:dispatch-to-saturated-worker:wide", format!("{workers} workers all at limit {limit}: {} queued connection(s) were dispatched nevertheless", after - before)));
+            return Ok(());
+        }
+        // ---- release on chosen indices, one at a time
+        let mut targets: Vec<usize> = [0usize, 63, 64, 127, 128, 129, 191, 255, 256, 257, 383, 384, 385, 511].iter().copied().filter(|k| *k < workers).collect();
+        rng.shuffle(&mut targets);
+        targets.truncate(queued);
+        for k in targets {
+            let pos = (0..first_extra).find(|i| w.clients[*i].cid != 0 && cid_worker.get(&w.clients[*i].cid) == Some(&k));
+            let Some(pos) = pos else { continue };
+            let c = std::mem::replace(&mut w.clients[pos], dummy_client());
+            let before = monitor::dispatch_sequence(&verif::log_since(0)).len();
+            close_and_wait(c)?;
+            seen.releases_after_saturation += 1;
+            let _ = barrier(&w)?;
+            let seq = monitor::dispatch_sequence(&verif::log_since(0));
+            if seq.len() == before {
+                fails.push(fail(
+                    "C04:released-slot-not-refilled:wide",
+                    format!("{workers} workers at limit {limit}, clients queued: worker {k} released a connection and nothing was dispatched (its availability is not seen)"),
+                ));
+                return Ok(());
+            }
+            seen.redispatch_after_release += 1;
+            seen.wide_releases_checked += 1;
+            if seq[before].2 != k || seq.len() != before + 1 {
+                fails.push(fail(
+                    "C04:dispatch-to-saturated-worker:wide",
+                    format!("{workers} workers at limit {limit}: after worker {k} released one connection the next dispatch(es) went to {:?}", seq[before..].iter().map(|x| x.2).collect::<Vec<_>>()),
+                ));
+                return Ok(());
+            }
+        }
+        Ok(())
+    })();
+    let clients: Vec<Client> = w.clients.drain(..).collect();
+    let (stopped, _) = w.run.stop(false, Duration::from_secs(30));
+    for c in clients {
+        if c.cid != 0 {
+            c.close();
+        }
+    }
+    let joined = w.run.join(Duration::from_secs(30));
+    verif::stop_recording();
+    let threads_gone = engine::wait_threads_gone(baseline_threads, Duration::from_secs(20));
+    seen.wide_scenarios += 1;
+    match result {
+        Err(Outcome::Violated(mut v)) => fails.append(&mut v),
+        Err(Outcome::Inconclusive(why)) if fails.is_empty() => return Outcome::Inconclusive(why),
+        _ => {}
+    }
+    if (!stopped || !joined || !threads_gone) && fails.is_empty() {
+        return Outcome::Inconclusive("wide server did not stop in teardown".into());
+    }
+    if fails.is_empty() {
+        Outcome::Held
+    } else {
+        Outcome::Violated(fails)
+    }
 }
